@@ -407,7 +407,11 @@ class SkipgramVectorizer(BaseEstimator, TransformerMixin):
             tuple(*self.kernel_args.values()),
         )
 
-        base_matrix = scipy.sparse.coo_matrix((data, (row, col)))
+        n_unique_tokens = len(self._window_sizes) - 1
+        base_matrix = scipy.sparse.coo_matrix(
+            (data, (row, col)),
+            shape=(len(token_sequences), n_unique_tokens * n_unique_tokens),
+        )
         column_sums = np.array(base_matrix.sum(axis=0))[0]
         self._column_is_kept = column_sums > 0
         self._kept_columns = np.where(self._column_is_kept)[0]
@@ -449,7 +453,7 @@ class SkipgramVectorizer(BaseEstimator, TransformerMixin):
             self._token_dictionary_,
         )
 
-        n_unique_tokens = len(self._token_dictionary_)
+        n_unique_tokens = len(self._window_sizes) - 1
 
         row, col, data = skip_grams_matrix_coo_data(
             token_sequences,
@@ -458,7 +462,10 @@ class SkipgramVectorizer(BaseEstimator, TransformerMixin):
             tuple(*self.kernel_args.values()),
         )
 
-        base_matrix = scipy.sparse.coo_matrix((data, (row, col)))
+        base_matrix = scipy.sparse.coo_matrix(
+            (data, (row, col)),
+            shape=(len(token_sequences), n_unique_tokens * n_unique_tokens),
+        )
         result = base_matrix.tocsc()[:, self._column_is_kept].tocsr()
 
         return result
